@@ -16,6 +16,7 @@ import (
 	"github.com/yorkie-team/yorkie/api/types"
 	"github.com/yorkie-team/yorkie/client"
 	"github.com/yorkie-team/yorkie/pkg/document"
+	"github.com/yorkie-team/yorkie/pkg/document/change"
 	"github.com/yorkie-team/yorkie/pkg/document/time"
 	"github.com/yorkie-team/yorkie/pkg/verifhook"
 	"github.com/yorkie-team/yorkie/server"
@@ -252,6 +253,7 @@ type World struct {
 	refs    map[string]*RefDoc
 	lastSeq map[string]int64 // rows already reported per doc (current epoch)
 	lastEp  map[string]int64
+	orig    map[string]*change.Change // original change objects by doc/actor/clientSeq/lamport
 }
 
 var worldCtr int64
